@@ -2958,6 +2958,10 @@ event_del_nolock_(struct event *ev, int blocking)
 		if (ev->ev_ncalls && ev->ev_pncalls) {
 			/* Abort loop */
 			*ev->ev_pncalls = 0;
+			/* the loop's counter lives on the stack of
+			 * event_signal_closure(): forget it, or a later
+			 * event_del() writes through a dangling pointer */
+			ev->ev_pncalls = NULL;
 		}
 	}
 
